@@ -85,6 +85,13 @@ func ParseWriteSingleCoilRequestTCP(data []byte) (*WriteSingleCoilRequestTCP, er
 		return nil, err
 	}
 	unitID := data[6]
+	if len(data) < 12 {
+		tmpErr := NewErrorParseTCP(ErrIllegalDataValue, "received data length too short to be valid packet")
+		tmpErr.Packet.TransactionID = header.TransactionID
+		tmpErr.Packet.UnitID = unitID
+		tmpErr.Packet.Function = FunctionWriteSingleCoil
+		return nil, tmpErr
+	}
 	if data[7] != FunctionWriteSingleCoil {
 		tmpErr := NewErrorParseTCP(ErrIllegalFunction, "received function code in packet is not 0x05")
 		tmpErr.Packet.TransactionID = header.TransactionID
